@@ -100,6 +100,12 @@ def scenarios(tier):
     # peer connection lost while shutting down
     S.append(mk("pair-close0-nlose-dev", cfg(A, B, fine=(0, 1), nlose=1, explored=("down", "up", "api", "connect", "stopfin", "nlose") + NET),
                 dev_bound=3 if q else 4, max_depth=250))
+    # time passes: the Leader's ping monitor fires (ping, then "no traffic" -> reconnect) and close() lands anywhere around it
+    for closer in ((0,) if q else (0, 1)):     # client 0 is the Leader (it owns the ping monitor)
+        t = [A, B] if closer == 0 else [B, A]
+        S.append(mk("pair-ping-timeout-close%d-dev" % closer, cfg(t[0], t[1], fine=(0, 1), ntimers=3,
+                                                                 explored=("down", "up", "api", "connect", "stopfin", "ntimer") + NET),
+                    dev_bound=3 if q else 4, max_depth=300))
     # peer absent: Manager stays WAITING
     S.append(mk("solo-dilate-close", cfg([[("set_code", CODE), ("dilate",), ("sub_connect", "p")], [("close",)]]), max_depth=80))
     # peer cannot dilate: connect() issued before and after the versions arrive must fail, close must complete
@@ -114,7 +120,7 @@ def run(chk):
     chk.assumptions += W1_ASSUMPTIONS
     chk.assumptions += ["stacked world: the real Boss / Terminator / Dilator / Manager / Connector / L2 protocols of both clients, the real mailbox server "
                         "logic for the control channel and the simulated TCP network for peer connections; Noise stand-in as in C12",
-                        "timers (ping monitor, relay delay) are not fired in these scenarios"]
+                        "timers (ping monitor, relay delay) fire only in the ping-timeout scenarios, as explicit 'time passes for this client' events (at most 3 per execution)"]
     run_scenarios(chk, scenarios(chk.tier))
 
 
